@@ -200,7 +200,7 @@ func suiteC06(s *Suite, rng *Rng, tier string) {
 								s.Violate("C06:honest-commitment-rejected", "issuer rejects honest commitment proof", L{tag})
 							}
 							// alterations of the first message must be rejected by the issuer's check
-							for _, f := range []string{"U", "C", "VPrime", "S", "nonce1", "ctx", "MUser"} {
+							for _, f := range []string{"U", "C", "VPrime", "S", "nonce1", "ctx", "MUser", "forged-U0", "forged-UN", "forged-UP"} {
 								pu := cloneProofU(proofU)
 								n1, cx := run.nonce1, run.ctx
 								switch f {
@@ -216,6 +216,22 @@ func suiteC06(s *Suite, rng *Rng, tier string) {
 									n1 = flipBit(n1, rng.Intn(80))
 								case "ctx":
 									cx = flipBit(cx, rng.Intn(200))
+								case "forged-U0", "forged-UN", "forged-UP":
+									// U not invertible modulo N: the issuer cannot reconstruct the commitment; a verifier that loses
+									// that error hashes no contributions, so the challenge is the hash of (context, nonce) alone
+									switch f {
+									case "forged-U0":
+										pu.U = bi(0)
+									case "forged-UN":
+										pu.U = cp(pk.N)
+									default:
+										pu.U = cp(kp.Sk.P)
+									}
+									pu.C = gabi.VerifCreateChallenge(cx, n1, nil, false)
+									single := cloneProofU(pu)
+									if _, _, accSingle := catchBool(func() bool { return single.Verify(pk, cx, n1) }); accSingle {
+										s.Violate("C06:altered-commitment-accepted", "ProofU.Verify accepted a commitment proof whose U is not invertible modulo N ("+f+")", L{tag, f, dumpPk(pk), dumpProofU(single), cx, n1})
+									}
 								case "MUser":
 									if len(pu.MUserResponses) == 0 {
 										continue
@@ -289,6 +305,14 @@ func suiteC06(s *Suite, rng *Rng, tier string) {
 							f(m)
 							return m
 						}
+						// the holder's own attribute list inconsistent with the random-blind positions agreed at the start
+						if len(blind) > 0 {
+							pos := blind[len(blind)-1]
+							deviate("attributes-end-before-blind-position", cloneMsg(msg), append([]*gbig.Int{}, run.attrs[:pos]...), b, run)
+							a2 := append([]*gbig.Int{}, run.attrs...)
+							a2[pos] = bi(5)
+							deviate("value-at-blind-position", cloneMsg(msg), a2, b, run)
+						}
 						deviate("proofS.c+1", mk(func(m *gabi.IssueSignatureMessage) { m.Proof.C.Add(m.Proof.C, bi(1)) }), run.attrs, b, run)
 						deviate("proofS.e+1", mk(func(m *gabi.IssueSignatureMessage) { m.Proof.EResponse.Add(m.Proof.EResponse, bi(1)) }), run.attrs, b, run)
 						deviate("proofS.c=nil", mk(func(m *gabi.IssueSignatureMessage) { m.Proof.C = nil }), run.attrs, b, run)
@@ -303,6 +327,13 @@ func suiteC06(s *Suite, rng *Rng, tier string) {
 						deviate("sig.A+2N", mk(func(m *gabi.IssueSignatureMessage) { m.Signature.A.Add(m.Signature.A, new(gbig.Int).Lsh(pk.N, 1)) }), run.attrs, b, run)
 						deviate("sig.A-N", mk(func(m *gabi.IssueSignatureMessage) { m.Signature.A.Sub(m.Signature.A, pk.N) }), run.attrs, b, run)
 						deviate("sig.E+ord-like(E+N)", mk(func(m *gabi.IssueSignatureMessage) { m.Signature.E.Add(m.Signature.E, pk.N) }), run.attrs, b, run)
+						// negative exponents over an A that has no inverse: math/big's Exp then returns nil
+						deviate("proofS.e<0,sig.A=0", mk(func(m *gabi.IssueSignatureMessage) { m.Signature.A = bi(0); m.Proof.EResponse = bi(-1) }), run.attrs, b, run)
+						deviate("proofS.c<0,sig.A=P", mk(func(m *gabi.IssueSignatureMessage) {
+							m.Signature.A = cp(kp.Sk.P)
+							m.Proof.C = new(gbig.Int).Neg(new(gbig.Int).Add(new(gbig.Int).Mul(m.Proof.EResponse, m.Signature.E), bi(1)))
+						}), run.attrs, b, run)
+						deviate("sig.E<0,sig.A=N", mk(func(m *gabi.IssueSignatureMessage) { m.Signature.A = cp(pk.N); m.Signature.E = new(gbig.Int).Neg(m.Signature.E) }), run.attrs, b, run)
 						deviate("sig.A=nil", mk(func(m *gabi.IssueSignatureMessage) { m.Signature.A = nil }), run.attrs, b, run)
 						deviate("sig.E=nil", mk(func(m *gabi.IssueSignatureMessage) { m.Signature.E = nil }), run.attrs, b, run)
 						deviate("sig.V=nil", mk(func(m *gabi.IssueSignatureMessage) { m.Signature.V = nil }), run.attrs, b, run)
